@@ -65,7 +65,14 @@ def strategy(ctx):
     if not ctx.thorough:
         return small
     # the real capacity, with enough distinct requests to overflow it
-    big = st.fixed_dictionaries({"cap": st.just(100), "ops": st.lists(_op, min_size=150, max_size=260)})
+    # (few registrations and never "*", otherwise custom certificates answer everything and nothing is generated)
+    add_nostar = st.tuples(st.just("add"), st.integers(0, len(CUSTOM) - 1),
+                           st.lists(st.integers(2, len(EXTRA_NAMES) - 1), max_size=1))
+    get_or_again = st.integers(0, 9).flatmap(lambda i: _get if i < 8 else _again)
+    big = st.fixed_dictionaries({
+        "cap": st.just(100),
+        "ops": st.tuples(st.lists(add_nostar, max_size=2), st.lists(get_or_again, min_size=200, max_size=330)).map(
+            lambda t: list(t[0]) + list(t[1]))})
     return st.integers(0, 19).flatmap(lambda i: big if i == 0 else small)
 
 
@@ -225,7 +232,7 @@ def check_case(case, ctx):
                     gen_order.append(k)
                     ctx.cls("generated: new")
                     if len(set(gen_order)) > cap:
-                        nontrivial.add("over-capacity")
+                        nontrivial.add("over-capacity" if cap < 100 else "over-capacity(cap=100)")
         # bound, after every call
         try:
             n_generated = sum(1 for kk in store.certs if not isinstance(kk, str))
